@@ -73,6 +73,10 @@ def manual_place(net, arch, fold_bn: bool) -> None:
         if n["op"] not in ("conv", "lin") or n["excl"] or n["reuse"]:
             continue
         rep, frozen, has_def = reps[i]
+        # a layer object called at several sites: its width is fixed as soon as ONE of them is tied to the input / output
+        sites_ = [j for j, m_ in enumerate(arch["nodes"], start=1) if m_["op"] in ("conv", "lin") and m_["reuse"] == i]
+        if not frozen and any(reps[j][1] for j in sites_):
+            rep, frozen = ("frozen-site", i), True
         if rep not in maskers:
             w = sh[i]["ch"]
             # the user may ask for more than one keep-alive channel
